@@ -1020,3 +1020,141 @@ func ruleMapMade(c *Ctx) {
 		c.viol("repository", "a map member that is created on demand is written only where it exists", "-", "no such write found")
 	}
 }
+
+// ---------------------------------------------------------------------------
+// DOM/optional-hook (C15): a function kept in a struct member that may be unset
+// (somewhere in the repository the member is tested against nil) is called only
+// under a non-nil test of that member. onUnsubscribe, the closed handler and
+// the WebSocket-close hook are set by tests or by optional configuration only:
+// called unguarded, the production binary dereferences nil.
+
+func ruleOptionalHook(c *Ctx) {
+	p := c.P
+	optional := map[*types.Var]bool{}
+	for _, fn := range p.Repo {
+		for _, b := range fn.Blocks {
+			i := blockIf(b)
+			if i == nil {
+				continue
+			}
+			if x, _, ok := nilTest(i, true); ok {
+				if f, _ := fieldLoad(x); f != nil {
+					if _, isSig := f.Type().Underlying().(*types.Signature); isSig {
+						optional[f] = true
+					}
+				}
+			}
+		}
+	}
+	n := 0
+	for _, fn := range p.Repo {
+		if !inScopePkgs(fn, "server", "rescache", "nats", "rpc", "codec") {
+			continue
+		}
+		for _, call := range callsIn(fn) {
+			com := call.Common()
+			if com.IsInvoke() || com.StaticCallee() != nil {
+				continue
+			}
+			f, _ := fieldLoad(com.Value)
+			if f == nil || !optional[f] {
+				continue
+			}
+			n++
+			c.inst(1)
+			nonNil := func(i *ssa.If) (bool, bool) {
+				for _, d := range []bool{true, false} {
+					if x, nn, isN := nilTest(i, d); isN && nn {
+						if g, _ := fieldLoad(x); g == f {
+							return d, true
+						}
+					}
+				}
+				return false, false
+			}
+			ok := p.guardedBy(call, nonNil) != nil
+			if !ok && !p.onReferenceTree(TopLevel(fn)) && p.guardedUp(call, nonNil, 0) {
+				ok = true
+			}
+			c.check(ok, fnName(fn), "an optional hook is called only where it is set", p.InstrPos(call), "under a non-nil test of "+typeFieldName(p, f),
+				typeFieldName(p, f)+" is called on a path that has not established that it is set: the hook is installed by tests or optional configuration only — nil call on a worker goroutine")
+		}
+	}
+	if n == 0 {
+		c.note("no call of an optional hook")
+	}
+}
+
+// ---------------------------------------------------------------------------
+// PAIR/release-on-teardown (C11, C09, C20): the release functions release.
+//   - unsubscribeConn and the cache's eviction unsubscribe the messaging-system
+//     subscription they hold whenever there is one (and call nothing on a nil one);
+//   - RemoveConn takes the connection out of the token-reset registry.
+
+func ruleReleaseOnTeardown(c *Ctx) {
+	p := c.P
+	for _, it := range []struct{ fn, field, what string }{
+		{"(*server.wsConn).unsubscribeConn", "server.wsConn.mqSub", "a closed connection's conn.<cid>.* subscription is released"},
+		{"(*rescache.Cache).mqUnsubscribe", "rescache.EventSubscription.mqSub", "an evicted cache entry's event subscription is released"},
+	} {
+		fn := p.Fn(it.fn)
+		f := p.Field(it.field)
+		if fn == nil || f == nil {
+			c.undecided(it.fn, "anchor", "-", "not found")
+			continue
+		}
+		sp := &Spec{}
+		sp.Branch = func(t *Tracer, fr *Frame, i *ssa.If, dir bool) []Ev {
+			return fieldTestEv(t, fr, i, dir, f, "sub")
+		}
+		sp.Classify = func(t *Tracer, fr *Frame, in ssa.Instruction) []Ev {
+			if cl, ok := in.(ssa.CallInstruction); ok && cl.Common().IsInvoke() && cl.Common().Method.Name() == "Unsubscribe" {
+				if g, _ := fieldLoad(t.Resolve(fr, cl.Common().Value).V); g == f {
+					return []Ev{{Kind: "unsubscribe"}}
+				}
+			}
+			return nil
+		}
+		pathRule(c, fn, it.what+" whenever there is one", sp, 2, func(tr *Tracer, path []Ev) string {
+			if hasKind(path, "sub!=nil") && !hasKind(path, "unsubscribe") {
+				// the eviction may stop early when the entry was taken into use again: only paths that go on to
+				// remove the entry matter there; for unsubscribeConn every path matters
+				if strings.HasSuffix(it.fn, "unsubscribeConn") {
+					return "the subscription is not released although there is one: every closed connection leaves a messaging-system subscription behind"
+				}
+			}
+			if hasKind(path, "unsubscribe") && !hasKind(path, "sub!=nil") {
+				return "Unsubscribe is called on a path that has not established that there is a subscription (nil for a connection whose subscribe failed, or an entry created by a call/auth request)"
+			}
+			return ""
+		})
+		// existence: some path releases
+		c.inst(1)
+		tr := runTrace(p, fn, sp)
+		some := false
+		for _, path := range tr.Paths {
+			if hasKind(path, "unsubscribe") {
+				some = true
+			}
+		}
+		c.check(some, fnName(fn), it.what, p.Pos(fn.Pos()), "a path unsubscribes", "no path of the release function unsubscribes: the messaging-system subscription of every closed connection / evicted entry stays behind")
+	}
+	if fn := p.Fn("(*rescache.Cache).RemoveConn"); fn != nil {
+		conns := p.Field("rescache.Cache.conns")
+		sp := &Spec{}
+		sp.Classify = func(t *Tracer, fr *Frame, in ssa.Instruction) []Ev {
+			if call, ok := isBuiltinCall(in, "delete"); ok {
+				if g, _ := fieldLoad(t.Resolve(fr, call.Call.Args[0]).V); g == conns {
+					return []Ev{{Kind: "forget"}}
+				}
+			}
+			return nil
+		}
+		pathRule(c, fn, "a closed connection leaves the token-reset registry", sp, 1, func(tr *Tracer, path []Ev) string {
+			if !hasKind(path, "forget") {
+				return "RemoveConn does not take the connection out of the registry: token resets keep being sent on behalf of closed connections, and the registry grows without bound"
+			}
+			return ""
+		})
+	}
+}
